@@ -98,6 +98,9 @@ def _unit_arith(op, a, b, ctx, path, line):
             return unit_mul(a, b, -1)
     if is_q(a) or is_q(b):
         return _q_arith(op, a, b, ctx, path, line)
+    # 1 / unit is a unit (astropy)
+    if is_unit(b) and isinstance(op, ast.Div) and isinstance(a, int) and not isinstance(a, bool) and a == 1:
+        return unit_pow(b, -1)
     # number (or array) * unit -> Quantity ;  number / unit
     if is_unit(b) and isinstance(op, (ast.Mult, ast.Div)):
         u_ = b if isinstance(op, ast.Mult) else unit_pow(b, -1)
